@@ -49,6 +49,12 @@ func NewChunkFromStorage(id ChunkID, b []byte, modifiers Converters, skipVerify 
 		c.idCalculated = true // Pretend this was calculated. No need to re-calc later
 		return c, nil
 	}
+	// The data has to be there and decodable for the ID to mean anything. ID()
+	// returns the zero value if it isn't, which is not to be mistaken for a
+	// match when that is the ID asked for.
+	if _, err := c.Data(); err != nil {
+		return nil, ChunkInvalid{ID: id}
+	}
 	sum := c.ID()
 	if sum != id {
 		return nil, ChunkInvalid{ID: id, Sum: sum}
